@@ -169,6 +169,14 @@ theorem effective_ivs_lines (b : MediaPlaylistBuilder) (ls : List Line) (p : Med
   have hn := built_numbers _ _ _ 0 none hinv.2.2 hb j s' hj'
   rw [hk, hn.1, hm]; simp
 
+/-- **C07 IVs, every accepted TEXT** (any parse entry point) -/
+theorem effective_ivs (b : MediaPlaylistBuilder) (t : Str) (p : MediaPlaylist) (h : parseMediaWith b t = .ok p) :
+    ∃ parsed : List MediaSegment, parsed.length = p.segments.length ∧
+      ∀ (j : Nat) (s s' : MediaSegment), parsed[j]? = some s → p.segments[j]? = some s' →
+        s'.keys = s.keys.map (completeIv (p.media_sequence + j)) := by
+  obtain ⟨_, ls, _, _, h3⟩ := parseMediaWith_ok b t p h
+  exact effective_ivs_lines b ls p h3
+
 /-! ## the writer never writes a derived IV -/
 
 /-- `Display for DecryptionKey` prints an `IV=` attribute only for the explicit variant -/
